@@ -522,7 +522,11 @@ func rangeSource(f *FuncSrc, info *types.Info, id *ast.Ident) string {
 		}
 		for _, kv := range []ast.Expr{rs.Key, rs.Value} {
 			if kid, ok := kv.(*ast.Ident); ok && info.ObjectOf(kid) == obj {
-				src = canon(info, rs.X)
+				x := rs.X
+				if d := resolveLocal(f, x); d != nil {
+					x = d // the list held in a single-definition local
+				}
+				src = canon(info, x)
 			}
 		}
 		return true
@@ -1498,5 +1502,156 @@ func checkC12AppendAdds(c *Ctx) {
 	}
 	if n == 0 {
 		r.OK(f.Name(), "no Replace", f.Body.Pos(), "Append does not go through Replace")
+	}
+}
+
+// C15.pk-placeholder: FindInBatches orders by and compares `clause.PrimaryKey`, and reads the cursor value of
+// the last row from a schema field; First/Last order by the same placeholder.  The placeholder is resolved to
+// a column in Statement.QuoteTo.  Writer/reader agreement: the Schema member QuoteTo resolves the placeholder
+// through is the member FindInBatches reads the cursor value from (today PrioritizedPrimaryField) - otherwise,
+// on a composite key, the cursor compares one column with the values of another.
+func checkC15PKPlaceholder(c *Ctx) {
+	p := c.P
+	r := c.Rule("C15.pk-placeholder", "the primary-key placeholder is rendered from the same schema member the batch cursor value is read from", 2)
+	schemaT := p.Named(pkgSchema, "Schema")
+	member := func(g *FuncSrc, info *types.Info, e ast.Expr) string {
+		// the Schema field selected first in a chain X.Schema.<member>...
+		for depth := 0; depth < 12; depth++ {
+			e = unparen(e)
+			switch x := e.(type) {
+			case *ast.Ident:
+				d := resolveLocal(g, x)
+				if d == nil || d == ast.Expr(x) {
+					return ""
+				}
+				e = d
+			case *ast.SelectorExpr:
+				if s := info.Selections[x]; s != nil && s.Kind() == types.FieldVal && derefNamed(s.Recv()) == schemaT {
+					return x.Sel.Name
+				}
+				e = x.X
+			case *ast.IndexExpr:
+				e = x.X
+			case *ast.CallExpr:
+				e = x.Fun
+			default:
+				return ""
+			}
+		}
+		return ""
+	}
+	// writer: QuoteTo, arm guarded by a comparison with clause.PrimaryKey
+	qt := p.MethodDecl(pkgGorm, "Statement", "QuoteTo")
+	c.Touch(qt)
+	pkC := p.Lookup(pkgClause, "PrimaryKey")
+	wMember := ""
+	var wPos token.Pos
+	for _, g := range append([]*FuncSrc{qt}, p.AllLits(qt)...) {
+		info := g.Pkg.TypesInfo
+		ast.Inspect(g.Body, func(n ast.Node) bool {
+			ifs, ok := n.(*ast.IfStmt)
+			if !ok || wMember != "" {
+				return true
+			}
+			mentions := false
+			ast.Inspect(ifs.Cond, func(m ast.Node) bool {
+				if id, ok := m.(*ast.Ident); ok && info.Uses[id] == pkC {
+					mentions = true
+				}
+				if sel, ok := m.(*ast.SelectorExpr); ok && info.Uses[sel.Sel] == pkC {
+					mentions = true
+				}
+				return true
+			})
+			if !mentions {
+				return true
+			}
+			// first call in the arm whose last argument goes through a Schema member
+			ast.Inspect(ifs.Body, func(m ast.Node) bool {
+				ce, ok := m.(*ast.CallExpr)
+				if !ok || wMember != "" || len(ce.Args) == 0 {
+					return true
+				}
+				if mb := member(g, info, ce.Args[len(ce.Args)-1]); mb != "" {
+					wMember, wPos = mb, ce.Pos()
+				}
+				return true
+			})
+			return true
+		})
+	}
+	// reader: FindInBatches, `<Schema member>.ValueOf(` on the last row
+	fib := p.MethodDecl(pkgGorm, "DB", "FindInBatches")
+	c.Touch(fib)
+	rMember := ""
+	var rPos token.Pos
+	{
+		info := fib.Pkg.TypesInfo
+		for _, call := range callsIn(fib) {
+			if sel, ok := call.Fun.(*ast.SelectorExpr); ok && sel.Sel.Name == "ValueOf" {
+				if mb := member(fib, info, sel.X); mb != "" {
+					rMember, rPos = mb, call.Pos()
+				}
+			}
+		}
+	}
+	if wMember == "" || rMember == "" {
+		r.Unknown(qt.Name(), "placeholder resolution", qt.Body.Pos(), "could not find the placeholder arm of QuoteTo or the cursor read of FindInBatches")
+		return
+	}
+	r.OK(fib.Name(), "cursor value read from Schema."+rMember, rPos, "reader side")
+	r.Check(wMember == rMember, qt.Name(), "placeholder rendered from Schema."+wMember, wPos, "same member as the cursor value", "QuoteTo renders the primary-key placeholder from Schema."+wMember+" while FindInBatches reads the cursor value from Schema."+rMember+": on a composite key whose prioritized member is not the first one, ORDER BY / the batch cursor / First(&v, id) use one column and the values of another - rows repeat, are skipped, or are not found")
+}
+
+// C16.key-all: when Model(x).Updates(values) pins the UPDATE to x's row (the found arm of FirstOrCreate with
+// Assign goes through it), the row is identified by ALL primary fields.  Decided: in ConvertToAssignments every
+// WHERE equality whose column is `<field>.DBName` takes <field> from a range over Schema.PrimaryFields.
+func checkC16KeyAll(c *Ctx) {
+	p := c.P
+	r := c.Rule("C16.key-all", "ConvertToAssignments pins an update to the model's row through every primary field", 1)
+	f := p.FuncDecl(pkgCallbacks, "ConvertToAssignments")
+	c.Touch(f)
+	info := f.Pkg.TypesInfo
+	whereT := p.Named(pkgClause, "Where")
+	eqT := p.Named(pkgClause, "Eq")
+	addClause := p.Method(p.Named(pkgGorm, "Statement"), "AddClause")
+	n := 0
+	for _, call := range callsIn(f) {
+		if fn, _ := typeutil.Callee(info, call).(*types.Func); fn != addClause || len(call.Args) != 1 {
+			continue
+		}
+		if len(litsOfType(info, call.Args[0], whereT, true)) == 0 {
+			continue
+		}
+		for _, eq := range litsOfType(info, call.Args[0], eqT, true) {
+			col, ok := unparen(compositeField(eq, "Column")).(*ast.SelectorExpr)
+			if !ok || col.Sel.Name != "DBName" {
+				continue
+			}
+			id, ok := unparen(col.X).(*ast.Ident)
+			if !ok {
+				continue
+			}
+			n++
+			src := rangeSource(f, info, id)
+			if src == "" {
+				// second idiom: a loop over ALL columns of the schema that turns the key columns into conditions
+				// (`for _, dbName := range S.DBNames { field := S.LookUpField(dbName); if !field.PrimaryKey ... else { WHERE } }`)
+				if facts, live := p.Guards(f, nil).At(eq.Pos()); live && facts.Has("T:"+id.Name+".PrimaryKey") {
+					if d := resolveLocal(f, id); d != nil {
+						if ce, ok := unparen(d).(*ast.CallExpr); ok && len(ce.Args) == 1 {
+							if aid, ok := unparen(ce.Args[0]).(*ast.Ident); ok && strings.HasSuffix(rangeSource(f, info, aid), ".DBNames") {
+								r.OK(f.Name(), "key condition on "+id.Name+".DBName", eq.Pos(), "every column of the schema that is a primary key")
+								continue
+							}
+						}
+					}
+				}
+			}
+			r.Check(strings.HasSuffix(src, ".PrimaryFields"), f.Name(), "key condition on "+id.Name+".DBName", eq.Pos(), "for every field of "+src, "the WHERE equality that pins the update to the model's row is built from `"+id.Name+"`, which is not the variable of a loop over Schema.PrimaryFields: on a composite key only part of the key is compared and other rows sharing it are overwritten")
+		}
+	}
+	if n == 0 {
+		r.Bad(f.Name(), "key condition", f.Body.Pos(), "ConvertToAssignments no longer adds the model's key as a condition; rule lost its anchor")
 	}
 }
